@@ -6,7 +6,10 @@ import (
 	"bytes"
 	"encoding/json"
 	"fmt"
+	"math/rand"
 	"reflect"
+	"runtime"
+	"sync"
 
 	"github.com/eclipse/paho.mqtt.golang/packets"
 	"github.com/emitter-io/emitter/internal/network/mqtt"
@@ -367,6 +370,7 @@ func Run(c *core.Ctx) {
 	if n == 0 || n != expectedCount {
 		core.Fatalf("received %d packets from TLC, the grid has %d", n, expectedCount)
 	}
+	concurrentEncode(c)
 	c.Set("evaluations", n)
 	c.Set("distinct_nontrivial", nontrivial)
 	c.Set("distinct_encoded_lengths", len(lens))
@@ -375,4 +379,86 @@ func Run(c *core.Ctx) {
 	c.Assume = append(c.Assume, "the layout operators of Mqtt.tla are cross-checked on every packet against github.com/eclipse/paho.mqtt.golang/packets (a disagreement is exit 2)",
 		"strings and payloads are runs of one byte value (content fidelity of mixed bytes is exercised by the broker-level checks)")
 	c.Finish()
+}
+
+// slowWriter consumes what it is given in pieces, yielding in between, as a socket under load does.
+type slowWriter struct{ buf []byte }
+
+func (w *slowWriter) Write(p []byte) (int, error) {
+	for off := 0; off < len(p); {
+		n := 1 + (len(p)-off)/3
+		if off+n > len(p) {
+			n = len(p) - off
+		}
+		w.buf = append(w.buf, p[off:off+n]...)
+		off += n
+		runtime.Gosched()
+	}
+	return len(p), nil
+}
+
+// concurrentEncode: every connection encodes on its own goroutine, all sharing the encoder's buffer pool. After a
+// batch of (rightly) refused oversized publishes - the error path of the pool - 16 goroutines encode distinct
+// packets of every emitted kind into slow writers; each must produce exactly the bytes the same packet encodes to
+// alone (which the grid above compared with the MQTT 3.1.1 layout for its shape).
+func concurrentEncode(c *core.Ctx) {
+	var pkts []mqtt.Message
+	for g := 0; g < 16; g++ {
+		for i, size := range []int{0, 1, 90, 127, 128, 2000, 16384, 40000, 65000} {
+			pkts = append(pkts, &mqtt.Publish{Header: mqtt.Header{QOS: uint8(i % 3), Retain: i%2 == 0}, MessageID: uint16(1 + g*100 + i),
+				Topic: []byte(fmt.Sprintf("k%02d/ch%d/", g, i)), Payload: bytes.Repeat([]byte{byte(1 + g*9 + i)}, size)})
+		}
+		pkts = append(pkts, &mqtt.Suback{MessageID: uint16(0x100*g + 7), Qos: []uint8{uint8(g % 3), 0x80}}, &mqtt.Puback{MessageID: uint16(0x101 * (g + 1))},
+			&mqtt.Unsuback{MessageID: uint16(0x33 + g)}, &mqtt.Connack{ReturnCode: uint8(g % 6)}, &mqtt.Pingresp{})
+	}
+	want := make([][]byte, len(pkts))
+	for i, p := range pkts {
+		var b bytes.Buffer
+		if _, err := p.EncodeTo(&b); err != nil {
+			core.Fatalf("sequential encode of a packet within the limit failed: %v", err)
+		}
+		want[i] = append([]byte{}, b.Bytes()...)
+	}
+	rounds := 60
+	if !c.Quick() {
+		rounds = 600
+	}
+	var bad int64
+	var mu sync.Mutex
+	for round := 0; round < 4; round++ {
+		// the refusal path of the encoder
+		big := &mqtt.Publish{Topic: []byte("big/"), Payload: make([]byte, 65600)}
+		for i := 0; i < 8; i++ {
+			var b bytes.Buffer
+			if _, err := big.EncodeTo(&b); err == nil {
+				core.Fatalf("an oversized PUBLISH was encoded")
+			}
+		}
+		var wg sync.WaitGroup
+		for g := 0; g < 16; g++ {
+			wg.Add(1)
+			go func(g int) {
+				defer wg.Done()
+				r := rand.New(rand.NewSource(c.Seed*31 + int64(g) + int64(round)*1000))
+				for i := 0; i < rounds; i++ {
+					j := r.Intn(len(pkts))
+					w := &slowWriter{}
+					_, err := pkts[j].EncodeTo(w)
+					if err != nil || !bytes.Equal(w.buf, want[j]) {
+						mu.Lock()
+						bad++
+						if bad <= 3 {
+							replay, _ := json.Marshal(map[string]any{"e": "concurrent-encode", "packet": fmt.Sprintf("%T", pkts[j]), "expected_len": len(want[j]), "got_len": len(w.buf),
+								"expected_head": fmt.Sprintf("%x", want[j][:min(len(want[j]), 32)]), "got_head": fmt.Sprintf("%x", w.buf[:min(len(w.buf), 32)]), "error": fmt.Sprint(err)})
+							c.Violation(fmt.Sprintf("a %T encoded while 15 other goroutines encode other packets differs from its own encoding (got %d bytes head %x, want %d bytes head %x, err %v)",
+								pkts[j], len(w.buf), w.buf[:min(len(w.buf), 16)], len(want[j]), want[j][:min(len(want[j]), 16)], err), replay)
+						}
+						mu.Unlock()
+					}
+				}
+			}(g)
+		}
+		wg.Wait()
+	}
+	c.Add("concurrent_encodings", int64(4*16*rounds))
 }
